@@ -277,3 +277,266 @@ func runCountFits(c *Ctx) {
 func is64or32(t types.Type) bool {
 	return t != nil && isIntType(t) && typeBitsOf(t) >= 32
 }
+
+func init() {
+	Register(&Rule{
+		Name:  "R-NO-SILENT-DROP",
+		Props: []string{"C10"},
+		Min:   4,
+		Doc: "a message the hub accepted for a connected recipient is queued, handed to the waiting path, or its failure is reported - never dropped in silence (F33): in internal/peers, for every select that tries `pc.send <- env` with a default clause, " +
+			"(default-disposes) every path from the default clause to the function's exit tries the send again, passes env on to another hub function (directly, or by recording the connection in a slice that goes to that function together with env), or returns false; " +
+			"(true-means-queued) a function with a bool result returns true only inside the clause of the successful send (or forwards the result of such a function); " +
+			"(retry-all) the function that receives the recorded connections tries each of them, unconditionally, in a loop over the whole slice",
+		Run: runNoSilentDrop,
+	})
+}
+
+func runNoSilentDrop(c *Ctx) {
+	p := c.P
+	_, _, _, sendF := hubFields(c)
+	if sendF == nil {
+		return
+	}
+	isSendOn := func(info *types.Info, s ast.Stmt) (*ast.SendStmt, bool) {
+		ss, ok := s.(*ast.SendStmt)
+		if !ok {
+			return nil, false
+		}
+		sel, ok := ast.Unparen(ss.Chan).(*ast.SelectorExpr)
+		if !ok {
+			return nil, false
+		}
+		fv, _ := info.Uses[sel.Sel].(*types.Var)
+		return ss, fv == sendF
+	}
+	nsel := 0
+	for _, f := range p.FuncsIn("internal/peers") {
+		if strings.HasSuffix(p.Fset.Position(f.Pos()).Filename, "_test.go") {
+			continue
+		}
+		info := f.Info()
+		cfg := f.CFG()
+		k := 0
+		InspectNoLits(f.Body, func(m ast.Node) bool {
+			sl, ok := m.(*ast.SelectStmt)
+			if !ok {
+				return true
+			}
+			var send *ast.SendStmt
+			var sendClause, dflt *ast.CommClause
+			for _, cl := range sl.Body.List {
+				cc := cl.(*ast.CommClause)
+				if cc.Comm == nil {
+					dflt = cc
+				} else if ss, ok := isSendOn(info, cc.Comm); ok {
+					send, sendClause = ss, cc
+				}
+			}
+			if send == nil || dflt == nil {
+				return true
+			}
+			nsel++
+			k++
+			key := fmt.Sprintf("%s#%d", f.Name, k)
+			msg := ObjOf(info, send.Value)
+			// the delegate calls of this function: repository functions of package peers that get the message
+			passesMsg := func(n ast.Node, also types.Object) bool {
+				hit := false
+				InspectNoLits(n, func(x ast.Node) bool {
+					call, ok := x.(*ast.CallExpr)
+					if !ok {
+						return true
+					}
+					g := p.CalleeInfo(info, call)
+					if g == nil || g.Pkg != f.Pkg {
+						return true
+					}
+					hasMsg, hasAlso := false, also == nil
+					for _, a := range call.Args {
+						// a callee that takes a list of connections delivers only to those recorded in it
+						if also == nil {
+							if t := info.TypeOf(a); t != nil {
+								if _, isSlice := t.Underlying().(*types.Slice); isSlice {
+									return true
+								}
+							}
+						}
+						if msg != nil && ObjOf(info, a) == msg {
+							hasMsg = true
+						}
+						if also != nil && ObjOf(info, a) == also {
+							hasAlso = true
+						}
+					}
+					if hasMsg && hasAlso {
+						hit = true
+					}
+					return true
+				})
+				return hit
+			}
+			// recorded: default clause appends to a slice variable
+			var recorded types.Object
+			for _, st := range dflt.Body {
+				if as, ok := st.(*ast.AssignStmt); ok && len(as.Lhs) == 1 && len(as.Rhs) == 1 {
+					if call, ok := ast.Unparen(as.Rhs[0]).(*ast.CallExpr); ok {
+						if id, ok := ast.Unparen(call.Fun).(*ast.Ident); ok && id.Name == "append" && len(call.Args) >= 2 && ObjOf(info, call.Args[0]) == ObjOf(info, as.Lhs[0]) {
+							recorded = ObjOf(info, as.Lhs[0])
+						}
+					}
+				}
+			}
+			// go/cfg evaluates the communication in the head block and then branches to the clauses: walk from the send node,
+			// counting the statements of the successful clause as disposal; an empty default clause has no node of its own
+			start := cfg.Find(send.Pos())
+			disposed := false
+			if start.Valid() {
+				from := start
+				disposed = allPathsHit(cfg, from, func(n ast.Node) bool {
+					if n == ast.Node(send) {
+						return true // the send is tried again
+					}
+					for _, st := range sendClause.Body {
+						if n.Pos() >= st.Pos() && n.End() <= st.End() {
+							return true // the successful clause
+						}
+					}
+					if rs, ok := n.(*ast.ReturnStmt); ok && len(rs.Results) == 1 {
+						if id, ok := ast.Unparen(rs.Results[0]).(*ast.Ident); ok && id.Name == "false" {
+							return true
+						}
+					}
+					if recorded != nil {
+						// `if len(recorded) > 0 { delegate(recorded, msg) }`: after the default clause ran the list is not empty
+						if cond, ok := n.(ast.Expr); ok {
+							guarded := false
+							ast.Inspect(f.Body, func(x ast.Node) bool {
+								is, ok := x.(*ast.IfStmt)
+								if !ok || is.Cond != cond || is.Init != nil {
+									return true
+								}
+								be, ok := ast.Unparen(is.Cond).(*ast.BinaryExpr)
+								if !ok {
+									return true
+								}
+								nonEmpty := false
+								if call, ok := ast.Unparen(be.X).(*ast.CallExpr); ok && len(call.Args) == 1 {
+									if id, ok := ast.Unparen(call.Fun).(*ast.Ident); ok && id.Name == "len" && ObjOf(info, call.Args[0]) == recorded {
+										if z, ok := constInt(info, be.Y); ok && z == 0 && (be.Op == token.GTR || be.Op == token.NEQ) {
+											nonEmpty = true
+										}
+									}
+								}
+								if ObjOf(info, be.X) == recorded && be.Op == token.NEQ && types.ExprString(be.Y) == "nil" {
+									nonEmpty = true
+								}
+								if nonEmpty {
+									for _, st := range is.Body.List {
+										if passesMsg(st, recorded) {
+											guarded = true
+										}
+									}
+								}
+								return true
+							})
+							if guarded {
+								return true
+							}
+						}
+						return passesMsg(n, recorded)
+					}
+					return passesMsg(n, nil)
+				}, func(ast.Node) bool { return false })
+			}
+			c.Check(disposed, "default-disposes/"+key, dflt.Pos(), "when the queue is full the message is retried, handed on, or its failure is reported",
+				"when the recipient's queue is full the message is dropped in silence: a recipient that keeps reading, only slower than the authors' bursts together, loses messages and nobody is told")
+			// true-means-queued
+			if f.Type.Results != nil && len(f.Type.Results.List) == 1 {
+				if t := info.TypeOf(f.Type.Results.List[0].Type); t != nil && t.String() == "bool" {
+					j := 0
+					InspectNoLits(f.Body, func(x ast.Node) bool {
+						rs, ok := x.(*ast.ReturnStmt)
+						if !ok || len(rs.Results) != 1 {
+							return true
+						}
+						id, ok := ast.Unparen(rs.Results[0]).(*ast.Ident)
+						if !ok || id.Name != "true" {
+							return true
+						}
+						j++
+						inside := rs.Pos() >= sendClause.Pos() && rs.End() <= sendClause.End()
+						c.Check(inside, fmt.Sprintf("true-means-queued/%s/return#%d", key, j), rs.Pos(), "success is reported only by the clause of the successful send",
+							f.Name+" reports success on a path where the message was not queued: the author is told its message was delivered while it was dropped")
+						return true
+					})
+				}
+			}
+			return true
+		})
+	}
+	if nsel == 0 {
+		c.Bad("default-disposes/none", token.NoPos, "found no non-blocking send on peerConnection.send in internal/peers")
+	}
+	// retry-all: functions of package peers with a []string parameter and the message: range over the slice, one delegate call per element
+	nretry := 0
+	for _, f := range p.FuncsIn("internal/peers") {
+		if f.Decl == nil || strings.HasSuffix(p.Fset.Position(f.Pos()).Filename, "_test.go") {
+			continue
+		}
+		info := f.Info()
+		var slice, msg types.Object
+		for _, fld := range f.Type.Params.List {
+			for _, nm := range fld.Names {
+				o := info.Defs[nm]
+				if o == nil {
+					continue
+				}
+				if sl, ok := o.Type().Underlying().(*types.Slice); ok {
+					if b, ok := sl.Elem().Underlying().(*types.Basic); ok && b.Kind() == types.String {
+						slice = o
+					}
+				}
+				if strings.HasSuffix(o.Type().String(), "protocol.Envelope") {
+					msg = o
+				}
+			}
+		}
+		if slice == nil || msg == nil {
+			continue
+		}
+		nretry++
+		good := false
+		for _, st := range f.Body.List {
+			rs, ok := st.(*ast.RangeStmt)
+			if !ok || ObjOf(info, rs.X) != slice {
+				continue
+			}
+			// the delegate call is a top-level statement of the loop body, and no break/continue/return precedes it
+			for _, bs := range rs.Body.List {
+				if es, ok := bs.(*ast.ExprStmt); ok {
+					if call, ok := es.X.(*ast.CallExpr); ok {
+						if g := p.CalleeInfo(info, call); g != nil && g.Pkg == f.Pkg {
+							for _, a := range call.Args {
+								if ObjOf(info, a) == msg {
+									good = true
+								}
+							}
+						}
+					}
+					if good {
+						break
+					}
+				}
+				if _, isAssign := bs.(*ast.AssignStmt); isAssign {
+					continue
+				}
+				break
+			}
+		}
+		c.Check(good, "retry-all/"+f.Name, f.Pos(), "each recorded connection gets the message, in a loop over the whole slice",
+			f.Name+" does not hand the message to every recorded connection (no unconditional delegate call in a loop over "+slice.Name()+"): the connections whose queue was full in the first pass never get it")
+	}
+	if nretry == 0 {
+		c.Bad("retry-all/none", token.NoPos, "found no function that retries the connections recorded by a broadcast")
+	}
+}
